@@ -16,18 +16,22 @@ pub fn schema_from_sx(sx: &Sx) -> Result<SchemaMut, String> {
 	}
 	let mut out = Vec::new();
 	for n in nodes {
-		let (h, args) = n.head()?;
-		if h != "node" || args.len() != 2 {
-			return Err("expected (node TYPE LOGICAL)".into());
-		}
-		let ty = type_from_sx(&args[0])?;
-		let lt = logical_from_sx(&args[1])?;
-		out.push(match lt {
-			None => SchemaNode::new(ty),
-			Some(lt) => SchemaNode::with_logical_type(ty, lt),
-		});
+		out.push(node_from_sx(n)?);
 	}
 	Ok(SchemaMut::from_nodes(out))
+}
+
+pub fn node_from_sx(n: &Sx) -> Result<SchemaNode, String> {
+	let (h, args) = n.head()?;
+	if h != "node" || args.len() != 2 {
+		return Err("expected (node TYPE LOGICAL)".into());
+	}
+	let ty = type_from_sx(&args[0])?;
+	let lt = logical_from_sx(&args[1])?;
+	Ok(match lt {
+		None => SchemaNode::new(ty),
+		Some(lt) => SchemaNode::with_logical_type(ty, lt),
+	})
 }
 
 fn key(sx: &Sx) -> Result<SchemaKey, String> {
